@@ -219,7 +219,15 @@ def parse_assumptions(out):
 
 
 # --------------------------------------------------------------------------------- T2 model side
-def write_case_files(prop, cases, tag):
+def model_of(prop, case):
+    """the module that prints/evaluates this case on the Coq side (aggregating properties such as
+    C18 delegate to the module that owns the site); default: the property module itself"""
+    f = getattr(prop, "model_of", None)
+    return f(case) if f else prop
+
+
+def write_case_files(prop, cases, tag, mod=None):
+    mod = mod or prop
     d = os.path.join(COQ, "Cases", prop.ID)
     os.makedirs(d, exist_ok=True)
     files = []
@@ -229,19 +237,19 @@ def write_case_files(prop, cases, tag):
         lines = [
             "From Coq Require Import ZArith List Bool Uint63.",
             "From Mesa Require Import Common.ObsHash.",
-            prop.COQ_IMPORTS,
+            mod.COQ_IMPORTS,
             "Import ListNotations.",
             "Open Scope Z_scope.",
-            f"Definition cases : list (Z * ({prop.COQ_CASE_TYPE} * list int)) := [",
+            f"Definition cases : list (Z * ({mod.COQ_CASE_TYPE} * list int)) := [",
         ]
         items = []
         for idx, c in chunk:
             hashes = "[" + "; ".join(coqlit.uint(obshash.hash_obs(o)) for o in c["_obs"]) + "]"
-            items.append(f"  ({idx}, ({prop.coq_case(c)},\n    {hashes}))")
+            items.append(f"  ({idx}, ({mod.coq_case(c)},\n    {hashes}))")
         lines.append(";\n".join(items))
         lines.append("].")
         lines.append("Set Printing Width 1000000. Set Printing Depth 1000000.")
-        lines.append(f"Eval vm_compute in disagreements {prop.COQ_RUN} cases.")
+        lines.append(f"Eval vm_compute in disagreements {mod.COQ_RUN} cases.")
         path = os.path.join(d, name + ".v")
         open(path, "w").write("\n".join(lines) + "\n")
         files.append(path)
@@ -257,7 +265,13 @@ def run_model(prop, cases, tag="t2"):
     """cases: list of (index, case-with-_obs).  Returns (disagreements {idx: first op}, errors)"""
     if not cases:
         return {}, []
-    files = write_case_files(prop, cases, tag)
+    groups = {}
+    for idx, c in cases:
+        m = model_of(prop, c)
+        groups.setdefault(m.ID, (m, []))[1].append((idx, c))
+    files = []
+    for mid, (m, cs) in groups.items():
+        files += write_case_files(prop, cs, f"{tag}_{mid}", m)
     with multiprocessing.pool.ThreadPool(min(16, len(files))) as tp:
         results = tp.map(_coqc_case_file, files)
     dis = {}
@@ -280,10 +294,11 @@ def model_observations(prop, case):
     d = os.path.join(COQ, "Cases", prop.ID)
     os.makedirs(d, exist_ok=True)
     path = os.path.join(d, f"Replay_{prop.ID}_{os.getpid()}.v")
+    m = model_of(prop, case)
     open(path, "w").write(
-        "From Coq Require Import ZArith List Bool.\n" + prop.COQ_IMPORTS + "\nImport ListNotations.\nOpen Scope Z_scope.\n"
+        "From Coq Require Import ZArith List Bool.\n" + m.COQ_IMPORTS + "\nImport ListNotations.\nOpen Scope Z_scope.\n"
         "Set Printing Width 1000000. Set Printing Depth 1000000.\n"
-        f"Eval vm_compute in {prop.COQ_RUN} {prop.coq_case(case)}.\n"
+        f"Eval vm_compute in {m.COQ_RUN} ({m.coq_case(case)}).\n"
     )
     rc, out, err = sh(["coqc", "-Q", COQ, "Mesa", path], cwd=d)
     if rc != 0:
